@@ -277,7 +277,7 @@ def shrink_spec(spec, fails, max_evals=150):
 def run(ctx):
     res = core.Result()
     t0 = time.time()
-    deadline = ctx.t0 + ctx.budget_s * 0.80
+    deadline = ctx.t0 + ctx.budget_s * (0.62 if ctx.quick else 0.80)  # leaves room for the model pass, shrinking, audit
     if ctx.quick:
         first, rest = make_cases(ctx, n_graph=500, n_leg=120, n_linalg=140, zoo_seeds=[ctx.seed], zoo_all=False)
         procs = 6
